@@ -262,60 +262,99 @@ def variants_for(pid):
             except Exception: pass
     return out
 
-def selftest(pid, mod, tier_seed=0):
+def _scratch_facts(scratch, name, patch, tree_key):
+    """facts of /repo's working tree with `patch` applied (scratch copy under the system temp dir), cached by content:
+    (fact path | None, work dir | None, reason)"""
+    import hashlib
+    h = hashlib.sha256((tree_key + "\0").encode() + open(patch, "rb").read()).hexdigest()[:24]
+    cdir = os.path.join(CACHE, "facts-variants", h)
+    fact = os.path.join(cdir, "zerv-lib.json")
+    work = os.path.join(scratch, "repo")
+    shutil.rmtree(work, ignore_errors=True)
+    os.makedirs(work)
+    for item in ("src", "python", "docs", "Cargo.toml", "Cargo.lock", "rust-toolchain.toml", "README.md"):
+        sp = os.path.join(REPO, item)
+        if os.path.isdir(sp): shutil.copytree(sp, os.path.join(work, item))
+        elif os.path.exists(sp): shutil.copy2(sp, os.path.join(work, item))
+    p = subprocess.run(["git", "apply", "--unsafe-paths", "--directory=" + work, patch], cwd=work, stdout=subprocess.PIPE, stderr=subprocess.STDOUT, text=True)
+    if p.returncode != 0:
+        p = subprocess.run(["patch", "-p1", "-s", "-i", patch], cwd=work, stdout=subprocess.PIPE, stderr=subprocess.STDOUT, text=True)
+    if p.returncode != 0: return None, None, "does not apply"
+    if os.path.exists(fact): return fact, work, "cached"
+    out = os.path.join(scratch, "facts")
+    shutil.rmtree(out, ignore_errors=True)
+    try:
+        f = run_driver(work, out, os.path.join(CACHE, "target"))
+    except CheckBroken:
+        return None, None, "does not compile"
+    os.makedirs(cdir, exist_ok=True)
+    shutil.copy2(f, fact + ".tmp"); os.replace(fact + ".tmp", fact)
+    # keep the cache bounded
+    ents = sorted(glob.glob(os.path.join(CACHE, "facts-variants", "*")), key=os.path.getmtime)
+    for old in ents[:-260]: shutil.rmtree(old, ignore_errors=True)
+    return fact, work, "driver"
+
+def _run_on(pid, mod, fact, work):
     global REPO
-    """Apply each variant to a scratch copy of /repo's working tree, re-derive the facts with the same driver and
-    require the rule module to report at least one (non-listed) violation.  Returns a summary dict; raises CheckBroken
-    if a variant that applies is not detected."""
-    import tempfile, random, facts as factsmod
+    import facts as factsmod
+    F = factsmod.Facts(fact)
+    sub = Report(pid, "thorough"); sub.silent = True
+    saved = {}
+    old_repo = REPO
+    REPO = work
+    if hasattr(mod, "PYFILE"): saved["PYFILE"] = mod.PYFILE; mod.PYFILE = os.path.join(work, "python/zerv/__init__.py")
+    try:
+        mod.check(F, sub, "quick")
+    except CheckBroken:
+        raise
+    except Exception:
+        finish(sub)          # a crash of the rule code on the variant: verdicts so far count, the rest is not decided
+        sub.crashed = True
+    finally:
+        REPO = old_repo
+        for k, v in saved.items(): setattr(mod, k, v)
+    return sub
+
+def neutral_fixtures():
+    return [(os.path.basename(f)[:-5], f) for f in sorted(glob.glob(os.path.join(VERIF, "fixtures", "neutral", "*.diff")))]
+
+def selftest(pid, mod, tier_seed=0):
+    """Both directions.  (1) Each seeded variant (fixtures/variants/<ID>_*.diff, seeded/*) is applied to a scratch copy of /repo's
+    working tree, the facts are re-derived with the same driver and the rule module must report a violation that is not a
+    listed known finding.  (2) Each behaviour-preserving refactoring in fixtures/neutral/*.diff is applied the same way and the
+    rule module must stay silent.  Returns a summary dict; raises CheckBroken if a variant is missed or a neutral change alarms."""
+    import tempfile, random
     vs = variants_for(pid)
     random.Random(tier_seed).shuffle(vs)
-    res = {"variants": len(vs), "detected": 0, "skipped": [], "missed": [], "details": []}
-    if not vs: return res
+    res = {"variants": len(vs), "detected": 0, "skipped": [], "missed": [], "details": [], "neutral": 0, "neutral_silent": 0, "neutral_alarms": [], "neutral_skipped": []}
+    tree_key = _sha_tree()
     scratch = tempfile.mkdtemp(prefix="zerv-verif-scratch-")
     try:
         for name, patch in vs:
-            work = os.path.join(scratch, "repo")
-            shutil.rmtree(work, ignore_errors=True)
-            os.makedirs(work)
-            for item in ("src", "python", "docs", "Cargo.toml", "Cargo.lock", "rust-toolchain.toml", "README.md"):
-                sp = os.path.join(REPO, item)
-                if os.path.isdir(sp): shutil.copytree(sp, os.path.join(work, item))
-                elif os.path.exists(sp): shutil.copy2(sp, os.path.join(work, item))
-            p = subprocess.run(["git", "apply", "--unsafe-paths", "--directory=" + work, patch], cwd=work, stdout=subprocess.PIPE, stderr=subprocess.STDOUT, text=True)
-            if p.returncode != 0:
-                p = subprocess.run(["patch", "-p1", "-s", "-i", patch], cwd=work, stdout=subprocess.PIPE, stderr=subprocess.STDOUT, text=True)
-            if p.returncode != 0:
-                res["skipped"].append(name); continue
-            out = os.path.join(scratch, "facts")
-            shutil.rmtree(out, ignore_errors=True)
-            try:
-                fact = run_driver(work, out, os.path.join(CACHE, "target"))
-            except CheckBroken as e:
-                res["skipped"].append(name + " (does not compile)"); continue
-            F = factsmod.Facts(fact)
-            sub = Report(pid, "thorough"); sub.silent = True
-            saved = {}
-            old_repo = REPO
-            REPO = work
-            if hasattr(mod, "PYFILE"): saved["PYFILE"] = mod.PYFILE; mod.PYFILE = os.path.join(work, "python/zerv/__init__.py")
-            try:
-                mod.check(F, sub, "quick")
-            except CheckBroken:
-                raise
-            except Exception:
-                finish(sub)          # a crash of the rule code on the variant: verdicts so far count, the rest is not decided
-            finally:
-                REPO = old_repo
-                for k, v in saved.items(): setattr(mod, k, v)
+            fact, work, how = _scratch_facts(scratch, name, patch, tree_key)
+            if fact is None:
+                res["skipped"].append("%s (%s)" % (name, how)); continue
+            sub = _run_on(pid, mod, fact, work)
             newv = getattr(sub, "new_violations", [])
             if newv:
                 res["detected"] += 1
                 res["details"].append({"variant": name, "reported": [v["key"] for v in newv][:4]})
             else:
                 res["missed"].append(name)
+        for name, patch in neutral_fixtures():
+            res["neutral"] += 1
+            fact, work, how = _scratch_facts(scratch, name, patch, tree_key)
+            if fact is None:
+                res["neutral_skipped"].append("%s (%s)" % (name, how)); continue
+            sub = _run_on(pid, mod, fact, work)
+            newv = getattr(sub, "new_violations", [])
+            if newv: res["neutral_alarms"].append({"neutral": name, "reported": [v["key"] for v in newv][:3]})
+            else: res["neutral_silent"] += 1
     finally:
         shutil.rmtree(scratch, ignore_errors=True)
     if res["missed"]:
         raise CheckBroken("self-test: the check for %s did not report seeded variant(s) %s" % (pid, res["missed"]))
+    if res["neutral_alarms"]:
+        raise CheckBroken("self-test: the check for %s raised an alarm on behaviour-preserving change(s) %s" % (pid, res["neutral_alarms"]))
     return res
+
